@@ -388,6 +388,13 @@ func (s *scheduler) establishIncomingHandshake(pc *conn.PendingConn, rb conn.Rem
 		s.failIncomingHandshake(pc, fmt.Errorf("torrent stat: %s", err))
 		return
 	}
+	if info.InfoHash() != pc.InfoHash() {
+		// The pending conn was reserved under the info hash the remote peer
+		// claimed. It can never be promoted to an active conn of the torrent it
+		// named, so release the reservation instead of leaking it.
+		s.failIncomingHandshake(pc, errors.New("info hash does not match torrent"))
+		return
+	}
 	c, err := s.handshaker.Establish(pc, info, rb)
 	if err != nil {
 		s.failIncomingHandshake(pc, fmt.Errorf("establish handshake: %s", err))
